@@ -175,7 +175,8 @@ class PairTableHistory(History):
         elif o == 'apply':
             f = FUNCS[op['func']]
             snapshot = {k: copy.deepcopy(v) for k, v in M.items()}
-            res = tbl.apply(f, inplace=op['inplace'])
+            # in place is the documented default: written by leaving the argument out
+            res = tbl.apply(f) if op['inplace'] else tbl.apply(f, inplace=False)
             applied = {k: f(copy.deepcopy(v)) for k, v in M.items()}
             if op['inplace']:
                 if res is not tbl:
@@ -220,7 +221,13 @@ class PairTableHistory(History):
             if raised != want:
                 out.fail(sig + 'check', 'check() raised=%s but model has unset pairs=%s' % (raised, want))
         elif o == 'iterate':
-            got = [(ij, t, v) for ij, t, v in tbl.iterpairs(full=op['full'], diagonal=op['diagonal'])]
+            # documented defaults (full=False, diagonal=True) are written by leaving the argument out
+            ikw = {}
+            if op['full']:
+                ikw['full'] = True
+            if not op['diagonal']:
+                ikw['diagonal'] = False
+            got = [(ij, t, v) for ij, t, v in tbl.iterpairs(**ikw)]
             want = []
             for i, a in enumerate(T):
                 for j, b in enumerate(T):
